@@ -55,6 +55,24 @@ CHECKS = {
             'ProviderMdib driven directly; crash points are the library API calls made by the body (before the first, '
             'after each, after the last); lxml extension elements are shared by design and not written to.',
             'DESIGN.md section 2 C03'),
+    'C01': ('hypothesis generated MDIB programs executed on a provider with an in-process consumer (loop-back '
+            'transport); whole-MDIB canonical comparison after every prefix and a before/after diff oracle for the '
+            'consumer observables',
+            'Provider and consumer run the real stack (transactions, report generation, serialisation with schema '
+            'validation, dispatching, message reader, ConsumerMdib) with only the socket replaced; after every operation '
+            'of a generated history both MDIBs are compared as wholes (descriptors with parents, states, context states, all '
+            'version counters, MdibVersion/SequenceId/InstanceId) and the entities named by the consumer observables are '
+            'compared with the entities whose canonical form changed.',
+            'Notifications are handled synchronously in the committing thread; sync and async subscription managers; '
+            'the tutorial role providers are attached, their periodic worker is parked.',
+            'DESIGN.md section 2 C01'),
+    'C11': ('hypothesis generated operation lists on MultiKeyLookup against a reference set + recomputed grouping, and '
+            'lookup audits after every step of generated MDIB programs on provider, consumer and subscription tables',
+            'Index dictionaries are compared with a linear scan after every generated operation; rejected inserts are '
+            'compared with a deep snapshot taken before the call; the real MDIB tables on both sides are audited after every '
+            'operation of generated histories that are biased to change indexed attributes.',
+            'The scan uses the index key functions of the table itself; unique-key collisions on update are not generated.',
+            'DESIGN.md section 2 C11'),
 }
 
 NOT_YET = {}
